@@ -324,3 +324,11 @@ func GenSpecial(t *rapid.T, label string, form string) Spec {
 	s.Hist = GenHist(t, label+".hist")
 	return s
 }
+
+// Rare is true in roughly one case out of n. rapid's integer generators are biased towards small
+// values, so "IntRange(0, n-1) == 0" is far more frequent than 1/n; hashing a drawn 64-bit value
+// spreads the probability (still a pure function of drawn values).
+func Rare(t *rapid.T, label string, n uint64) bool {
+	x := rapid.Uint64().Draw(t, label)
+	return splitmix64(&x)%n == 0
+}
